@@ -39,8 +39,14 @@ pub fn alias_tokinizer(tokinizer: &mut Tokinizer) {
         }
     }
 
+    /* Unknown language does not have alias */
+    let language_aliases = match tokinizer.config.language_alias_regex.get(&tokinizer.language) {
+        Some(language_aliases) => language_aliases,
+        None => return
+    };
+
     for token in tokinizer.token_infos.iter() {
-        for (re, data) in tokinizer.config.language_alias_regex.get(&tokinizer.language).unwrap().iter() {
+        for (re, data) in language_aliases.iter() {
             if re.is_match(&token.original_text.to_lowercase()) {
                 let new_values = match tokinizer.config.token_parse_regex.get("atom") {
                     Some(items) => get_atom(tokinizer.config, data, items),
